@@ -237,7 +237,7 @@ func c08Exec(sc c08Scenario) (detail string, labels map[string]bool) {
 		if sc.Mitig {
 			// let the persisted position be observed and handed to the observer before the stream ends
 			deadline := time.Now().Add(5 * time.Second)
-			for n := 0; n < 2 && time.Now().Before(deadline); time.Sleep(time.Millisecond) {
+			for n := 0; n < 2 && !deadlinePassed(deadline); time.Sleep(time.Millisecond) {
 				n = 0
 				for _, en := range c.Log() {
 					if en.Cmd == cmdObserveSeqNo && en.Vb == vb && en.Replied && en.Reply == 0 {
@@ -254,7 +254,7 @@ func c08Exec(sc c08Scenario) (detail string, labels map[string]bool) {
 				s0.Mutation(simnode.DocEvent{Seq: q, Rev: q, Cas: (1_700_000_000 + q) * 1_000_000_000, Key: []byte(fmt.Sprintf("old%d", q)), Value: []byte(`{}`)})
 			}
 			for dl := time.Now().Add(10 * time.Second); cons.count() < sc.PreShown; time.Sleep(200 * time.Microsecond) {
-				if time.Now().After(dl) {
+				if deadlinePassed(dl) {
 					return fmt.Sprintf("the session was sent %d documents above its checkpoint before the stream ended; %d were delivered", sc.PreShown, cons.count()), labels
 				}
 			}
@@ -277,7 +277,7 @@ func c08Exec(sc c08Scenario) (detail string, labels map[string]bool) {
 		s0.End(memd.StreamEndStateChanged)
 		deadline := time.Now().Add(10 * time.Second)
 		for len(c.StreamReqs()) < 3 || c.Stream(vb) == nil || c.Stream(vb) == s0 {
-			if time.Now().After(deadline) {
+			if deadlinePassed(deadline) {
 				return fmt.Sprintf("the stream ended with a transient cause; the node saw %d requests afterwards and has no new open stream", len(c.StreamReqs())-1), labels
 			}
 			time.Sleep(time.Millisecond)
@@ -296,7 +296,7 @@ func c08Exec(sc c08Scenario) (detail string, labels map[string]bool) {
 		sendEvents(s)
 	} else {
 		// (the node sends them right after its response; the client may be back from Open before that)
-		for dl := time.Now().Add(10 * time.Second); time.Now().Before(dl); time.Sleep(200 * time.Microsecond) {
+		for dl := time.Now().Add(10 * time.Second); !deadlinePassed(dl); time.Sleep(200 * time.Microsecond) {
 			evMu.Lock()
 			done := evSent
 			evMu.Unlock()
